@@ -337,6 +337,36 @@ impl DifficultyValues {
         ColorDifficultyPreprocessor::process_and_assign(&diff_objects);
         RhythmDifficultyPreprocessor::process_and_assign(&diff_objects);
 
+        #[cfg(rosu_pp_verif)]
+        crate::verif::trace::emit(|| {
+            use crate::util::sync::Weak;
+
+            let rows: Vec<String> = diff_objects
+                .objects
+                .iter()
+                .map(|h| {
+                    let h = h.get();
+                    let color = &h.color_data;
+                    let mono = color.mono_streak.as_ref().and_then(Weak::upgrade);
+                    let alternating = color.alternating_mono_pattern.as_ref().and_then(Weak::upgrade);
+                    let repeating = color.repeating_hit_patterns.as_ref();
+
+                    format!(
+                        r#"["{:?}",{},{},{},{},{},{}]"#,
+                        h.base_hit_type,
+                        mono.as_ref().map_or(-1, |m| m.get().idx as i64),
+                        mono.as_ref().map_or(-1, |m| m.get().run_len() as i64),
+                        alternating.as_ref().map_or(-1, |a| a.get().idx as i64),
+                        alternating.as_ref().map_or(-1, |a| a.get().mono_streaks.len() as i64),
+                        repeating.map_or(-1, |r| r.get().alternating_mono_patterns.len() as i64),
+                        repeating.map_or(-1, |r| r.get().repetition_interval as i64),
+                    )
+                })
+                .collect();
+
+            format!(r#"{{"g":"taiko_color","objects":[{}]}}"#, rows.join(","))
+        });
+
         diff_objects
     }
 }
